@@ -299,8 +299,9 @@ def confirm(ck, binp, recs, bad, badb, rounds=2):
         with open(inp, "w") as f:
             whole = set()
             for r, _ in timing:
-                if str(r.get("bkind", "")).startswith("held"):
-                    whole.add(r["batch"])  # a forced schedule involves the whole batch (the calls that set the stage)
+                if str(r.get("bkind", "")).startswith("held") or r.get("bkind") in ("default-limit", "limit5-penalty0", "bad-responses"):
+                    # a forced schedule / a rate limit involves the whole batch (the calls that set the stage, the message count)
+                    whole.add(r["batch"])
                 else:
                     f.write(json.dumps(r) + "\n")
             for r in recs:
